@@ -13,7 +13,7 @@ from props import wirelib as W
 
 M32, M64 = (1 << 32) - 1, (1 << 64) - 1
 COQ_FILES = ["Common/RustInt.v", "Shard/PgSpec.v", "Shard/HashProofs.v", "Shard/Paths.v",
-             "Shard/PathsProofs.v", "Shard/Props.v"]
+             "Shard/PathsProofs.v", "Shard/Sha1.v", "Shard/Sha1Proofs.v", "Shard/Props.v"]
 
 
 # ---- independent oracle: PostgreSQL hashfn.c / hashfunc.c transcribed to Python -----------
@@ -144,7 +144,7 @@ def check(run):
         "Coq 8.16.1 kernel + vm_compute (no native_compute); no axioms (Print Assumptions: closed)",
         "translate/rs_arith2v.py renders the straight-line integer Rust of src/sharding.rs faithfully (validated each run: real Sharder vs generated model on the sampled keys)",
         "coq/Shard/PgSpec.v transcribes PostgreSQL's hashfn.c/hashfunc.c/partbounds.c correctly (validated against the 50 vectors obtained from a real PostgreSQL and an independent Python transcription)",
-        "the SHA1 rule is checked against python hashlib only (no SHA-1 theorem)",
+        "coq/Shard/Sha1.v is a hand-written SHA-1 (validated against the FIPS vector 'abc', the repo's 20 vectors and, per run, the sha-1 crate and python hashlib)",
         "sqlparser / regex crates deliver the literal / capture group text unchanged (environment)",
     ]
     run.cov["trusted_base"] = ["coqc 8.16.1 kernel", "vm_compute", "translate/rs_arith2v.py", "coq/Shard/PgSpec.v (hand transcription of PostgreSQL C)",
@@ -207,6 +207,21 @@ def check(run):
                                   found_input=(g != pg_partition(k, n)))
                     break
         samples.append({"kind": "coq-eval", "expr": exprs[0], "value": vals[0]})
+        # SHA-1 model (coq/Shard/Sha1.v) vs the real Sharder, sample of keys
+        ssub = BOUND + keys[len(BOUND) + 50:][: (60 if quick else 1500)]
+        sex = ["sha1_shard (%d)%%Z 12%%N" % k for k in ssub]
+        svals = vlib.coq_eval("c06s", "From PV Require Import Shard.Sha1.\nFrom Coq Require Import ZArith NArith.", sex, shard=20)
+        got = real_shards(router, "sha1", 12, ssub)
+        for k, v, g in zip(ssub, svals, got):
+            evals += 1
+            run.cov["traces_validated_against_impl"] += 1
+            m = vlib.parse_coq(v)
+            if m != ("Some", g):
+                run.violation("tie-broken", "SHA-1 model and implementation disagree on key %d, 12 shards: model=%s impl=%s" % (k, m, g),
+                              {"correspondence": "Shard/Sha1.v sha1_shard vs Sharder::shard (Sha1)", "input": {"key": k, "shards": 12}, "model": str(m), "impl": g},
+                              found_input=(g != sha1_rule(k, 12)))
+                break
+        samples.append({"kind": "coq-eval-sha1", "expr": sex[0], "value": svals[0]})
 
     # 4c. delivery paths through the real QueryRouter
     if not run.violations:
